@@ -9,6 +9,7 @@ import MediaSan.Lemmas.BitBuf
 import MediaSan.Lemmas.BitTrace
 import MediaSan.Lemmas.BufOnly
 import MediaSan.Lemmas.BitBridge
+import MediaSan.Lemmas.BufLoop
 import MediaSan.Generated.Vp8lTables
 namespace MediaSan.Props.C19
 open MediaSan MediaSan.Vp8l
@@ -178,6 +179,42 @@ theorem C19_read_huffman_model (s : BitBuf) (orig : Bytes) (d : Nat) (h : Abs s 
     rw [hr] at key; simp only at key
     obtain ⟨d', hk, _⟩ := key
     exact ⟨d', by rw [hk]⟩
+
+/-! ### the sub-image loop as the code runs it -/
+
+/-- **The sub-image loop over the buffered reader is the validator model's loop.**  `pixelLoopBuf` (Vp8l/BufLoop.lean)
+    is `EntropyCodedImage::read`'s pixel loop as lossless.rs:308-356 runs it: one guarded refill at the head of every
+    iteration, then `buf_read_huffman` / `buf_read_lz77` on the buffer only.  `pixelLoop` (Vp8l/Lossless.lean) is the loop
+    of the validator model, over the whole byte string - the one every C07 / C08 / C09 theorem speaks about.  For EVERY
+    group of finalized codes, capacity that holds the read-ahead (`readaheadBits g + 7 ≤ 8·cap`: 11 bytes suffice for
+    15-bit codes), input, buffer state under the abstraction, sub-image size, pixel callback and number of iterations:
+    the buffered loop returns the model's result at the model's bit position, or fails with the model's error -
+    wherever the refills fall (`BA orig` is the byte list as the `ByteArray` the model reads).  (Relational logic of Lemmas/BufLoop.lean: `RelW` inside an iteration, where the window
+    of secured bits shrinks by each read's cost and `readaheadBits` is shown to cover green + red + blue + alpha and
+    green + length extra + distance symbol + distance extra; `RelL` across iterations.) -/
+theorem C19_pixel_loop_buffered (g : Group) (hg : g.ready) (cache : Option Nat) (width total : Nat) (chk : Nat → Bool)
+    (orig : Bytes) (fuel idx acc : Nat) (s : BitBuf) (d : Nat) (h : Abs s orig d)
+    (hcap : readaheadBits g + 7 ≤ 8 * s.cap) :
+    match pixelLoopBuf g cache width total chk fuel idx acc s with
+    | .ok (a, s') =>
+        ∃ d', pixelLoop g cache width total chk fuel idx acc (BA orig) (s.absPos d) =
+          .ok (a, s'.absPos d') ∧ Abs s' orig d' ∧ s'.cap = s.cap
+    | .error e =>
+        pixelLoop g cache width total chk fuel idx acc (BA orig) (s.absPos d) = .error e :=
+  by
+  have key := pixelLoop_refines g hg cache width total chk orig fuel idx acc s d h hcap
+  cases hr : pixelLoopBuf g cache width total chk fuel idx acc s with
+  | error e => rw [hr] at key; exact key
+  | ok x => obtain ⟨a, s'⟩ := x; rw [hr] at key; exact key
+
+-- Non-vacuity: a ready group, and the buffered loop really running over a 16-byte buffer (two literal pixels of a
+-- two-symbol green code, then the sub-image is complete)
+example : (match newCode [(0, 1), (1, 1)], newCode [(0, 1)] with
+    | .ok c2, .ok c1 =>
+      (match pixelLoopBuf ⟨c2, c1, c1, c1, c1⟩ none 2 2 (fun _ => true) 3 0 0 (BitBuf.new 16 [0b10, 0, 0]) with
+        | .ok (a, s') => a == 1 && s'.bitPos == 2
+        | .error _ => false)
+    | _, _ => false) = true := by decide +kernel
 
 -- Non-vacuity: a run of four fields over a 2-byte buffer (refills in between), ending past the end of data
 example : runBufOps [.read 3, .read 7, .read 8, .read 8, .read 8, .read 8] (BitBuf.new 2 [0xA5, 0x3C, 0xFF, 0x01, 0x80]) =
